@@ -256,6 +256,10 @@ func diff(a, b StepOut, permuted *int) (field, av, bv string) {
 }
 
 func sameModuloDictOrder(a, b string) bool {
+	// since fix 6269628 a dict prints and lists its entries in key order: nothing is tolerated any more
+	if true {
+		return false
+	}
 	if len(a) != len(b) || !strings.Contains(a, "{'") {
 		return false
 	}
